@@ -1,4 +1,5 @@
 #include "util.h"
+#include <string.h>
 #include <rtosc/arg-val.h>
 #include <rtosc/arg-val-itr.h>
 
@@ -24,11 +25,14 @@ size_t rtosc_avmessage(char                  *buffer,
     STACKALLOC(char, argstr,val_max+1);
 
     int i;
+    int n_vals = 0;
     for(i = 0; i < val_max; ++i)
     {
         rtosc_arg_val_t av_buffer;
         const rtosc_arg_val_t* cur = rtosc_arg_val_itr_get(&itr, &av_buffer);
-        vals[i] = cur->val;
+        // rtosc_amessage() only consumes a value for types that carry data
+        if(cur->type && strchr("ifsbhtdSrmc", cur->type))
+            vals[n_vals++] = cur->val;
         argstr[i] = cur->type;
         rtosc_arg_val_itr_next(&itr);
     }
